@@ -13,8 +13,10 @@ use super::{DiagnosticLocation, DiagnosticMessage, SeverityLevel};
 /// the point of error. As much effort should be done to avoid these errors
 /// and to use `LintErrors`, as those are recoverable.
 pub enum CfgError {
-    /// This error occurs when a label is used but not defined.
-    LabelsNotDefined(HashSet<LabelStringToken>),
+    /// This error occurs when a label is used but not defined. The second
+    /// field is the first use of an undefined label in program order, where
+    /// the error is reported.
+    LabelsNotDefined(HashSet<LabelStringToken>, LabelStringToken),
     /// This error occurs when a label is defined more than once.
     DuplicateLabel(LabelStringToken),
     /// This error occurs when a return statement is used but can be reached by
@@ -40,15 +42,6 @@ trait SetListString {
     fn as_str_list(&self) -> String;
 }
 
-/// The occurrence that comes first in the source: the location of an error
-/// about a set of labels must not depend on the iteration order of the set.
-fn first_occurrence(labels: &HashSet<LabelStringToken>) -> &LabelStringToken {
-    labels
-        .iter()
-        .min_by_key(|label| (label.range(), label.file(), label.get().as_str().to_owned()))
-        .unwrap()
-}
-
 impl<T> SetListString for HashSet<T>
 where
     T: Display + Ord,
@@ -66,7 +59,7 @@ where
 impl Display for CfgError {
     fn fmt(&self, f: &mut std::fmt::Formatter<'_>) -> std::fmt::Result {
         match self {
-            CfgError::LabelsNotDefined(labels) => {
+            CfgError::LabelsNotDefined(labels, _) => {
                 write!(f, "Labels not defined: {}", labels.as_str_list())
             }
             CfgError::DuplicateLabel(label) => {
@@ -93,7 +86,7 @@ impl Display for CfgError {
 impl From<&CfgError> for SeverityLevel {
     fn from(value: &CfgError) -> Self {
         match value {
-            CfgError::LabelsNotDefined(_)
+            CfgError::LabelsNotDefined(_, _)
             | CfgError::DuplicateLabel(_)
             | CfgError::MultipleLabelsForReturn(_, _)
             | CfgError::NoLabelForReturn(_)
@@ -111,7 +104,7 @@ impl DiagnosticLocation for CfgError {
             CfgError::MultipleLabelsForReturn(node, _)
             | CfgError::NoLabelForReturn(node)
             | CfgError::FunctionWithoutReturn(node, _) => node.file(),
-            CfgError::LabelsNotDefined(labels) => first_occurrence(labels).file(),
+            CfgError::LabelsNotDefined(_, first) => first.file(),
             CfgError::DuplicateLabel(label) | CfgError::LabelWithoutInstruction(label) => {
                 label.file()
             }
@@ -124,7 +117,7 @@ impl DiagnosticLocation for CfgError {
             CfgError::MultipleLabelsForReturn(node, _)
             | CfgError::NoLabelForReturn(node)
             | CfgError::FunctionWithoutReturn(node, _) => node.range(),
-            CfgError::LabelsNotDefined(labels) => first_occurrence(labels).range(),
+            CfgError::LabelsNotDefined(_, first) => first.range(),
             CfgError::DuplicateLabel(label) | CfgError::LabelWithoutInstruction(label) => {
                 label.range()
             }
@@ -137,7 +130,7 @@ impl DiagnosticLocation for CfgError {
             CfgError::MultipleLabelsForReturn(node, _)
             | CfgError::NoLabelForReturn(node)
             | CfgError::FunctionWithoutReturn(node, _) => node.raw_text(),
-            CfgError::LabelsNotDefined(labels) => first_occurrence(labels).raw_text(),
+            CfgError::LabelsNotDefined(_, first) => first.raw_text(),
             CfgError::DuplicateLabel(label) | CfgError::LabelWithoutInstruction(label) => {
                 label.raw_text()
             }
@@ -165,7 +158,7 @@ impl DiagnosticMessage for CfgError {
             CfgError::DuplicateLabel(label) => format!(
                 "The label {label} is defined more than once. Labels must be unique."
             ),
-            CfgError::LabelsNotDefined(labels) => format!(
+            CfgError::LabelsNotDefined(labels, _) => format!(
                 "The labels {} are used but not defined. Labels must be defined within your file.",
                 labels.as_str_list()
             ),
